@@ -239,7 +239,7 @@ func cmdSubLife(args []string) {
 			defer wg.Done()
 			for {
 				i := int(atomic.AddInt64(&next, 1))
-				if i >= len(tests) || atomic.LoadInt64(&budget) >= 12 {
+				if i >= len(tests) || atomic.LoadInt64(&budget) >= slBudget {
 					return
 				}
 				atomic.AddInt64(&hangProgress, 1)
@@ -272,6 +272,16 @@ func cmdSubLife(args []string) {
 			continue
 		}
 		sus++
+		// what was seen goes to the validated trace in any case: a comparison that fails is a reason to look, TLC
+		// decides (a tree that behaves differently in a harmless way must not use up the budget of the suspects)
+		for _, l := range o.lines {
+			w.Write(l)
+			w.WriteByte('\n')
+		}
+		w.WriteString(`{"ev":"reset"}` + "\n")
+		if sus > 12 {
+			continue
+		}
 		sp := filepath.Join(args[2], fmt.Sprintf("suspect-%d.ndjson", sus))
 		if err := os.WriteFile(sp, append(bytes.Join(o.lines, []byte("\n")), '\n'), 0o644); err != nil {
 			hlib.Fatal("%v", err)
@@ -281,9 +291,13 @@ func cmdSubLife(args []string) {
 	res.Distinct = res.Evaluations
 	res.SetExtra("suspects", suspects)
 	res.SetExtra("diverged_to_other_allowed_outcome", diverged)
-	res.SetExtra("stopped_after_failures", budget >= 12)
+	res.SetExtra("stopped_after_failures", budget >= slBudget)
+	res.SetExtra("suspects_total", sus)
 	res.Emit()
 }
+
+// slBudget: behaviours whose comparison may fail before the replay stops (each costs its time-out)
+const slBudget = 160
 
 func subLifeOne(n int, t []slCmd) (lines [][]byte, class, detail string, diverged bool) {
 	st := hlib.NewMemStream(fmt.Sprint("sublife", n))
